@@ -833,6 +833,10 @@ func (r *envelopingReader) Read(data []byte) (n int, err error) {
 	if len(data) > offset {
 		n, err = r.current.Read(data[offset:])
 	}
+	if offset+n > 0 && errors.Is(err, io.EOF) {
+		// end of this message, not of the stream: the next Read moves on
+		err = nil
+	}
 	return offset + n, err
 }
 
@@ -956,6 +960,10 @@ func (r *transformingReader) Read(data []byte) (n int, err error) {
 			n, err = r.buffer.Read(data[offset:])
 		}
 		if offset+n > 0 {
+			if errors.Is(err, io.EOF) {
+				// the buffer of this message is drained, the stream is not over
+				err = nil
+			}
 			return offset + n, err
 		}
 
